@@ -3,6 +3,7 @@
 //! implementation answered).  The Lean driver replays the lines on the model
 //! and on the reference specification.
 mod rng;
+mod acl;
 mod addr;
 mod httpstore;
 mod store;
@@ -43,6 +44,7 @@ fn main() {
         "udpstore" => store::run(&mut out, seed, cases, maxops, &replay, false),
         "udpcodec" => udpcodec::run(&mut out, seed, cases, &replay),
         "validator" => validator::run(&mut out, seed, cases, &replay),
+        "acl" => acl::run(&mut out, seed, cases, &replay),
         "addr" => addr::run(&mut out, seed, cases, &replay),
         "timeunit" => timeunit::run(&mut out, seed, cases),
         "httpstore" => store::run(&mut out, seed, cases, maxops, &replay, true),
